@@ -80,15 +80,26 @@ pub fn check_connections(sc: &Scenario, tr: &Trace) -> Option<(String, String)> 
             continue; // refused / stalled connect
         }
         let cmds: Vec<&&ConnEv> = evs.iter().filter(|e| e.dir == Dir::Rx && e.bytes != ACK).collect();
-        // R1: registration with the configured password, DE and currency first; the system-info request second
+        // R1: registration with the configured password and currency first; the identity check (system-info request) second.
+        // Judged on the decoded fields (reference codec): what else a registration carries is not part of the property.
+        let schema = refcodec::zvt_schema();
+        let codec = refcodec::codec::Codec::new(&schema);
         if let Some(first) = cmds.first() {
-            if first.bytes != reg {
-                return Some(("R1: a new connection does not start with registration (configured password, config byte DE, configured currency)".into(), format!("connection {k}: first packet {}, expected {}", refcodec::hex(&first.bytes), refcodec::hex(&reg))));
+            let ok = match codec.decode(schema.get("packets::Registration"), &first.bytes) {
+                Ok((v, rest)) => rest.is_empty() && v.field("password").and_then(|x| x.num()) == Some(sc.cfg.password as u128) && v.field("currency").and_then(|x| x.num()) == Some(sc.cfg.currency as u128),
+                Err(_) => false,
+            };
+            if !ok {
+                return Some(("R1: a new connection does not start with registration (configured password and currency)".into(), format!("connection {k}: first packet {}, expected e.g. {}", refcodec::hex(&first.bytes), refcodec::hex(&reg))));
             }
         }
         if let Some(second) = cmds.get(1) {
-            if second.bytes != SYSINFO_REQUEST {
-                return Some(("R1: the second command on a new connection is not the identity check (system-info request)".into(), format!("connection {k}: second command {}", refcodec::hex(&second.bytes))));
+            let ok = match codec.decode(schema.get("feig::packets::CVendFunctions"), &second.bytes) {
+                Ok((v, rest)) => rest.is_empty() && v.field("instr").and_then(|x| x.num()) == Some(1),
+                Err(_) => false,
+            };
+            if !ok {
+                return Some(("R1: the second command on a new connection is not the identity check (system-info request)".into(), format!("connection {k}: second command {}, expected e.g. {}", refcodec::hex(&second.bytes), refcodec::hex(&SYSINFO_REQUEST))));
             }
         }
         // R2: every further command only after the terminal reported the configured serial on this connection
